@@ -139,6 +139,8 @@ type BufConn interface {
 	WaitPeerBlocked(timeout time.Duration) bool
 	// Quiescent: both ends parked in Read on empty buffers, observed atomically.
 	Quiescent() bool
+	// Snapshot: bytes written in each direction and whether each end is parked in Read.
+	Snapshot() (toPeer, fromPeer int, peerParked, selfParked bool)
 	// WaitPeerDrained waits until the other end has read everything written to it so far.
 	WaitPeerDrained(timeout time.Duration) bool
 	// Received returns a copy of all bytes the other end has written to this end so far.
@@ -200,6 +202,16 @@ func (c *bufConn) Quiescent() bool {
 		return (h.waiting > 0 && len(h.buf) == 0) || h.rclosed || (h.wclosed && len(h.buf) == 0)
 	}
 	return idle(a) && idle(b)
+}
+
+// Snapshot returns the traffic counters and whether each end is parked in Read (atomically).
+func (c *bufConn) Snapshot() (toPeer, fromPeer int, peerParked, selfParked bool) {
+	a, b := c.rd, c.wr
+	a.mu.Lock()
+	b.mu.Lock()
+	defer a.mu.Unlock()
+	defer b.mu.Unlock()
+	return b.total, a.total, b.waiting > 0 && len(b.buf) == 0, a.waiting > 0 && len(a.buf) == 0
 }
 
 func (c *bufConn) Received() []byte {
